@@ -530,6 +530,19 @@ class InterpBase:
         if base.k == "sym" and i.k == "const" and (base.a[0], i.a[0]) in self.concrete_bytes:
             self.log_read("idx", base, i, None, env, node)
             return C(self.concrete_bytes[(base.a[0], i.a[0])])
+        if self.concrete_bytes and base.k == "slice" and i.k == "const" and isinstance(i.a[0], int) and i.a[0] >= 0:
+            # a structure-determining octet seen through (nested) slices with constant starts
+            q, off, ok = base, i.a[0], True
+            while q.k == "slice":
+                if q.a[1].k == "const" and isinstance(q.a[1].a[0], int) and q.a[1].a[0] >= 0:
+                    off += q.a[1].a[0]
+                    q = q.a[0]
+                else:
+                    ok = False
+                    break
+            if ok and q.k == "sym" and (q.a[0], off) in self.concrete_bytes:
+                self.log_read("idx", base, i, None, env, node)
+                return C(self.concrete_bytes[(q.a[0], off)])
         if base.k == "dictlit" or base.ty == "dict" or (base.k == "obj" and base.ty == "dict"):
             if base.k == "dictlit":
                 for k, v in base.a[0]:
